@@ -13,6 +13,7 @@ it does not are compared against the model without monitors (`with_monitor=False
 import os, json, random, time
 from explore import Job, run_jobs, Disagreement, replay_with_monitor
 import c16lib as L
+import c16hdr
 from c16lib import bit_per_byte
 
 FMT = "letters/outputs in the port order documented in lean/LitexModel/Packet/Num.lean for the instance's machine"
@@ -133,30 +134,49 @@ def jobs(tier, seed=0):
     # ---- PacketFIFO ---------------------------------------------------------------------------------------
     # tokens (data, param, last).  T4 distinguishes data, param and last; T2 exercises the occupancy logic only
     # (every stored word of a deeper FIFO multiplies the implementation states by the number of token values)
+    OV = 2200 if quick else 23000      # over-long packets (which block the FIFO for good) only at the end of a run
     T4 = [(0, 0, 0), (1, 1, 0), (0, 1, 1), (1, 0, 1)]
     T2 = [(0, 0, 0), (1, 1, 1)]
     T3 = [(0, 0, 0), (1, 0, 1), (0, 1, 1)]
-    A(lambda: L.packetfifo_inst("PacketFIFO(2)", 2, tokens=T3 if quick else T4))
+    A(lambda: L.packetfifo_inst("PacketFIFO(2)", 2, tokens=T3 if quick else T4, legacy=True))
+    A(lambda: L.packetfifo_inst("PacketFIFO(2)/all-depths model", 2, tokens=T3))
     A(lambda: L.packetfifo_inst("PacketFIFO(3)/T2", 3, tokens=T2))
     A(lambda: L.packetfifo_inst("PacketFIFO(4,param_depth=1)/T2", 4, 1, tokens=T2))
-    A(lambda: L.packetfifo_inst("PacketFIFO(2,buffered)", 2, buffered=True, tokens=T2 if quick else T3))
+    A(lambda: L.packetfifo_inst("PacketFIFO(2,buffered)", 2, buffered=True, tokens=T2 if quick else T3, legacy=True))
+    A(lambda: L.packetfifo_inst("PacketFIFO(2,buffered)/all-depths model", 2, buffered=True, tokens=T2))
+    # depths below 2: stream.SyncFIFO builds a PipeValid register (1) or a wire (0), `buffered` is ignored there
+    A(lambda: L.packetfifo_inst("PacketFIFO(1)", 1, tokens=T4))
+    A(lambda: L.packetfifo_inst("PacketFIFO(1,param_depth=0)", 1, 0, tokens=T4))
+    A(lambda: L.packetfifo_inst("PacketFIFO(1,buffered)", 1, buffered=True, tokens=T3))
+    A(lambda: L.packetfifo_inst("PacketFIFO(1,param_depth=2,buffered)/T2", 1, 2, buffered=True, tokens=T2))
+    A(lambda: L.packetfifo_inst("PacketFIFO(2,param_depth=0)", 2, 0, tokens=T3))
+    A(lambda: L.packetfifo_inst("PacketFIFO(0)", 0, tokens=T3))
+    A(lambda: L.packetfifo_inst("PacketFIFO(0,buffered)", 0, buffered=True, tokens=T3))
+    # candidate finding (buffered payload FIFO + PipeValid param queue): model comparison only
+    A(lambda: L.packetfifo_inst("defect-region/PacketFIFO(2,param_depth=0,buffered)", 2, 0, buffered=True, tokens=T3))
     A(lambda: L.packetfifo_inst("PacketFIFO(3,param_depth=1,buffered)/T2", 3, 1, buffered=True, tokens=T2))
-    B(lambda: L.packetfifo_inst("PacketFIFO(8,buffered)/8b", 8, buffered=True, dwid=8, pwid=8, alphabet=False))
+    B(lambda: L.packetfifo_inst("PacketFIFO(8,buffered)/8b", 8, buffered=True, dwid=8, pwid=8, alphabet=False,
+                                overlong_from=OV))
     if not quick:
         B(lambda: L.packetfifo_inst("PacketFIFO(16,2,buffered)/8b", 16, 2, buffered=True, dwid=8, pwid=8,
-                                    alphabet=False))
+                                    alphabet=False, overlong_from=OV))
         A(lambda: L.packetfifo_inst("PacketFIFO(2)/alltokens", 2))
         A(lambda: L.packetfifo_inst("PacketFIFO(3)", 3, tokens=T4))
         A(lambda: L.packetfifo_inst("PacketFIFO(4)/T2", 4, tokens=T2))
         A(lambda: L.packetfifo_inst("PacketFIFO(3,param_depth=1)", 3, 1, tokens=T4))
     fgrid = ((8, None, 8, False), (16, 2, 8, False), (5, 5, 64, False), (7, 3, 8, True), (3, 9, 128, False),
-             (6, 1, 33, True))
+             (6, 1, 33, True), (1, None, 8, False), (1, 0, 64, True), (5, 0, 8, False), (1, 4, 8, True))
     if not quick:
-        fgrid += ((64, None, 8, False), (32, 3, 8, False), (9, 2, 8, True), (2, 1, 64, False), (12, 20, 8, True))
+        fgrid += ((64, None, 8, False), (32, 3, 8, False), (9, 2, 8, True), (2, 1, 64, False), (12, 20, 8, True),
+                  (1, 0, 8, False), (1, 7, 33, False), (13, 0, 8, False), (0, 3, 8, False), (0, 0, 8, True))
     for (pd, qd, wid, buf) in fgrid:
         B(lambda pd=pd, qd=qd, wid=wid, buf=buf:
           L.packetfifo_inst("PacketFIFO(%d,%s%s)/%db" % (pd, qd, ",buffered" if buf else "", wid), pd, qd,
-                            buffered=buf, dwid=wid, pwid=wid, alphabet=False))
+                            buffered=buf, dwid=wid, pwid=wid, alphabet=False, overlong_from=OV))
+    for (pd, qd, wid) in ((4, 0, 8),) if quick else ((4, 0, 8), (2, 0, 64), (7, 0, 8)):
+        B(lambda pd=pd, qd=qd, wid=wid:
+          L.packetfifo_inst("defect-region/PacketFIFO(%d,%d,buffered)/%db" % (pd, qd, wid), pd, qd, buffered=True,
+                            dwid=wid, pwid=wid, alphabet=False, overlong_from=OV), with_monitor=False)
     # ---- Arbiter / Dispatcher (payload = data | first << dwid) -----------------------------------------------
     A(lambda: L.arbiter_inst("Arbiter(2)", 2))
     A(lambda: L.arbiter_inst("Arbiter(3)", 3, payload_values=(0, 3)))
@@ -167,6 +187,9 @@ def jobs(tier, seed=0):
     A(lambda: L.dispatcher_inst("Dispatcher(3,one_hot)", 3, one_hot=True, payload_values=(0, 3)))
     A(lambda: L.dispatcher_inst("Dispatcher(1,one_hot)", 1, one_hot=True))
     A(lambda: L.dispatcher_inst("Dispatcher(1)/plain connect", 1))      # constructor glue: master.connect(slave)
+    A(lambda: L.arbiter_inst("Arbiter(0)/nothing connected", 0))        # constructor glue: `pass`
+    A(lambda: L.dispatcher_inst("Dispatcher(0)/nothing connected", 0))  # constructor glue: only `sel` exists
+    A(lambda: L.dispatcher_inst("Dispatcher(0,one_hot)/nothing connected", 0, one_hot=True))
     if not quick:
         A(lambda: L.arbiter_inst("Arbiter(3)/allpayloads", 3))
         A(lambda: L.arbiter_inst("Arbiter(4)", 4, payload_values=(0, 3)))
@@ -348,6 +371,8 @@ def correspond(ctx):
     for d in corpus_replay(ctx):
         dis.append(d)
     dis += header_tie(ctx, 120 if ctx.tier == "quick" else 1200)
+    # ill-formed tables (fields beyond the header length, overlaps) and the _lsb/_msb convention of get_field
+    dis += c16hdr.header_clip_tie(ctx, 80 if ctx.tier == "quick" else 1000)
     ctx.jobs = jobs(ctx.tier, ctx.seed)
     d2, bad = run_jobs(ctx, ctx.jobs)
     # every mode-A instance is sized to be explored completely on the unchanged tree: an exploration that does
@@ -577,6 +602,8 @@ def search(ctx, disagreements, proof_info):
         if job.kw.get("with_monitor") is False:
             continue
         inst = job.make()
+        if getattr(inst, "defect_region", False):
+            continue
         # 1. the disagreement traces themselves
         for d in by_job.get(j, []):
             r = replay_with_monitor(inst, [tuple(l) for l in d.trace])
@@ -605,6 +632,15 @@ def replay(ctx, payload):
         for d in payload.get("disagreements", [])[:3]:
             print("  ", d)
         return 1
+    if fi.get("instance") == "Header" and "record" in fi.get("input", {}):
+        msgs = c16hdr.replay_clip(fi["input"])
+        for m in msgs:
+            print("monitor:", m)
+        if msgs:
+            print("VIOLATION property=C16 replay=(replayed)")
+            return 1
+        print("input no longer violates the property on the current tree")
+        return 0
     if fi.get("instance") == "Header":
         d = fi["input"]
         hs = L.HdrSpec({k: tuple(v) for k, v in d["fields"].items()}, d["length"], d["swap"])
